@@ -1,9 +1,15 @@
-/* C14 (bounded stand-in): frame of the slab / fault query functions - a const query may write the answer vector only.
- * Fault::properties and SubductingPlate::properties are too large for DFCC with loop contracts in this sandbox
- * (DESIGN 15); here every loop is cut after its first iteration and only the frame obligations ("... is assignable")
- * are considered.  Labelled BOUNDED in the evidence and never counted as proved. */
+/* C14: frame of the query path - a const query function may write its answer (and the exception flag) only; the feature
+ * object, the world, every global and every function-local static are read-only, so concurrent queries cannot race.
+ * Frame-only units (pipeline key frame_only): the functions are too large for full DFCC contracts in this sandbox
+ * (DESIGN 15), so nothing but the assigns clause is decided here: loops run under the trivial invariant (everything a
+ * loop may write is havocked, then one arbitrary iteration is checked), untranslated callees are arbitrary-result
+ * bodies that write nothing but the exception flag (assumed callee frames, listed in the evidence), and the harness
+ * leaves every input unconstrained.  An over-approximation of the executions: unbounded and sound for the frame. */
 #include "spec.h"
 #include "gen.c"
+#define PASTE_(a, b) a##b
+#define PASTE(a, b) PASTE_(a, b)
+#if defined(UNIT_fault_frame) || defined(UNIT_slab_frame)
 #ifdef UNIT_fault_frame
 #define FT Features_Fault
 #define FFUNC Features_Fault_properties
@@ -11,30 +17,11 @@
 #define FT Features_SubductingPlate
 #define FFUNC Features_SubductingPlate_properties
 #endif
-#define PASTE_(a, b) a##b
-#define PASTE(a, b) PASTE_(a, b)
-/* callees: nothing but "any value, no write" is assumed about them here */
-double Objects_NaturalCoordinate_get_depth_coordinate__contract(struct Objects_NaturalCoordinate *this_)
-__CPROVER_requires(1) __CPROVER_assigns() __CPROVER_ensures(1)
-;
-struct arr_double_2 Objects_NaturalCoordinate_get_surface_coordinates__contract(struct Objects_NaturalCoordinate *this_)
-__CPROVER_requires(1) __CPROVER_assigns() __CPROVER_ensures(1)
-;
-enum enum_CoordinateSystem CoordinateSystems_Interface_natural_coordinate_system__contract(struct CoordinateSystems_Interface *this_)
-__CPROVER_requires(1) __CPROVER_assigns() __CPROVER_ensures(1)
-;
-_Bool BoundingBox2_point_inside__contract(struct BoundingBox2 *this_, struct Point2 *point, double tolerance)
-__CPROVER_requires(1) __CPROVER_assigns() __CPROVER_ensures(1)
-;
-struct Utilities_PointDistanceFromCurvedPlanes Utilities_distance_point_from_curved_planes__contract(struct Point3 *check_point,
-    struct Objects_NaturalCoordinate *check_point_natural, struct Point2 *reference_point, struct vec_Point2 *point_list,
-    struct vec_vec_double *plane_segment_lengths, struct vec_vec_Point2 *plane_segment_angles, double start_radius,
-    struct CoordinateSystems_Interface * *coordinate_system, _Bool only_positive, struct Objects_BezierCurve *bezier_curve)
-__CPROVER_requires(1) __CPROVER_assigns() __CPROVER_ensures(1)
-;
 void PASTE(FFUNC, __contract)(struct FT *this_, struct Point3 *position, struct Objects_NaturalCoordinate *nat, double depth,
     struct vec_arr_uint_3 *properties, double gravity_norm, struct vec_ulong *entry_in_output, struct vec_double *output)
 __CPROVER_requires(wb_thrown == 0)
+/* type invariants of the inputs: every vector within its capacity (generated wf_* predicates) */
+__CPROVER_requires(PASTE(wf_, FT)(this_) && wf_vec_arr_uint_3(properties) && wf_vec_ulong(entry_in_output) && wf_vec_double(output))
 __CPROVER_assigns(wb_thrown, __CPROVER_object_whole(output))      /* the feature, the world and every global are read-only */
 __CPROVER_ensures(1)
 ;
@@ -46,3 +33,4 @@ void h_frame(void)
   FFUNC(&f, &p, &nat, depth, &req, gravity, &entry, &out);
   REACHABLE();
 }
+#endif
